@@ -158,7 +158,7 @@ func vmap(nk, nops int) {
 
 // C15 K1: the generic persistent hash trie is a map, and older versions never change (see vmap).
 //
-//symgo:harness prop=C15 tier=quick shards=8 timeout=400 bounds=3_keys;scripts_of_3_ops_from_Put/Delete/Freeze+Mutable;hash_digits_in_{0,1}_at_trie_levels_0_and_1,_other_hash_bits_0_(partial_and_full_collisions,_overflow_nodes);arbitrary_one-byte_values outside=other_hash_digits;more_keys;longer_scripts;key_types_other_than_int
+//symgo:harness prop=C15 tier=quick shards=4 timeout=400 bounds=3_keys;scripts_of_3_ops_from_Put/Delete/Freeze+Mutable;hash_digits_in_{0,1}_at_trie_levels_0_and_1,_other_hash_bits_0_(partial_and_full_collisions,_overflow_nodes);arbitrary_one-byte_values outside=other_hash_digits;more_keys;longer_scripts;key_types_other_than_int
 func VerifC15Map() {
 	vhashes(3, []int{0, 1}, []int{2, 2})
 	vmap(3, 3)
@@ -392,7 +392,7 @@ func vscript(st *stor.Stor, c vchain, off uint64, m vmodel, used, nk, nsteps int
 // KNOWN: label chain/deleted-entry-live-after-reload fails on the unchanged tree (Hamt.Write
 // writes nothing when a full flatten has only tombstones, so the old chunks stay current).
 //
-//symgo:harness prop=C15 tier=quick shards=8 tshards=16 timeout=400 ttimeout=1700 bounds=2_keys(thorough_3);scripts_of_4_steps(thorough_5)_from_put/drop/persist/reopen_plus_a_final_persist;client_protocol_of_db19/meta_(lastMod=clock,created,tombstones);hash_digit_in_{0,1}_at_level_0;arbitrary_one-byte_values;heap_store outside=clients_that_do_not_follow_the_lastMod/created_protocol;chains_longer_than_the_scripts_reach_(see_VerifC15Flatten)
+//symgo:harness prop=C15 tier=quick shards=4 tshards=16 timeout=400 ttimeout=1700 bounds=2_keys(thorough_3);scripts_of_4_steps(thorough_5)_from_put/drop/persist/reopen_plus_a_final_persist;client_protocol_of_db19/meta_(lastMod=clock,created,tombstones);hash_digit_in_{0,1}_at_level_0;arbitrary_one-byte_values;heap_store outside=clients_that_do_not_follow_the_lastMod/created_protocol;chains_longer_than_the_scripts_reach_(see_VerifC15Flatten)
 func VerifC15Persist() {
 	nk, nsteps := 2, 4
 	if rt.Thorough() {
@@ -409,7 +409,7 @@ func VerifC15Persist() {
 // chain of L chunks (clock 0 after every reopen, so nothing is merged), L in 6..7 (thorough 1..7);
 // then a script as in VerifC15Persist. With 7 chunks the next write must flatten to one chunk.
 //
-//symgo:harness prop=C15 tier=quick shards=8 tshards=16 timeout=400 ttimeout=1700 bounds=prologue_chains_of_6..7_chunks(thorough_1..7)_with_puts_and_tombstones;2_keys;scripts_of_3_steps(thorough_4)_plus_a_final_persist;real_maxChain_7;hash_digit_in_{0,1}_at_level_0 outside=as_VerifC15Persist
+//symgo:harness prop=C15 tier=quick shards=4 tshards=16 timeout=400 ttimeout=1700 bounds=prologue_chains_of_6..7_chunks(thorough_1..7)_with_puts_and_tombstones;2_keys;scripts_of_3_steps(thorough_4)_plus_a_final_persist;real_maxChain_7;hash_digit_in_{0,1}_at_level_0 outside=as_VerifC15Persist
 func VerifC15Flatten() {
 	nk, nsteps := 2, 3
 	lmin := 6
@@ -446,7 +446,7 @@ func VerifC15Flatten() {
 // chunks, is all of them from maxChain chunks on, and otherwise the number of trailing one bits
 // of the clock (capped); TrailingOnes itself against its characterization (t low one bits, then a zero bit).
 //
-//symgo:harness prop=C15 tier=quick shards=2 timeout=300 bounds=0..9_chunks;every_non-negative_clock outside=negative_clocks
+//symgo:harness prop=C15 tier=quick shards=1 timeout=300 bounds=0..9_chunks;every_non-negative_clock outside=negative_clocks
 func VerifC15Nmerge() {
 	clock := rt.Int("clock")
 	rt.Assume(clock >= 0)
